@@ -18,7 +18,7 @@ LEVEL = "exploration"
 RULE = (
     "Inputs: the 25 valid corpus streams (2 pictures each; encoder output for many configurations incl. fragments, fields, two "
     "sequences, padding units) and their byte-, bit-field-, field- and unit-level mutations (C02 generator), written to a file in "
-    "a scratch directory; output patterns picture_%d.raw, %03d.raw, x%d.json, a nested directory prefix; with/without --no-status "
+    "a scratch directory; output patterns picture_%d.raw, %03d.raw, x%d.json, nested directory prefixes, directory names containing dots, patterns without extension and dot-files; with/without --no-status "
     "and -v. Oracle: vc2_bitstream_validator.main() in-process vs a direct parse_stream of the same bytes: conformant -> exit 0 "
     "and exactly N .raw/.json pairs numbered 0..N-1 whose file_format.read() equals the N pictures, video parameters and coding "
     "modes the decoder callback produced, in order; non-conformant -> exit 2, stdout has 'Conformance error at bit offset <int>' "
@@ -29,7 +29,8 @@ RULE = (
 ASSUMPTIONS = ["Size guard bounds as C02 (out-of-scope streams are counted, not judged).",
                "The reference verdict is the repository's own parse_stream run directly by the harness (C01/C02/C03 judge that verdict)."]
 
-PATTERNS = ["picture_%d.raw", "%03d.raw", "x%d.json", "sub/dir/p%d.raw", "pic%d"]
+PATTERNS = ["picture_%d.raw", "%03d.raw", "x%d.json", "sub/dir/p%d.raw", "pic%d", "run.1/picture_%d", "v1.2/a.b/frame_%d.raw",
+            ".hidden_%d", "dir.d/.p%d.x"]
 
 
 @st.composite
